@@ -663,3 +663,337 @@ Proof.
   cbn [ref_decode fst snd]. rewrite Hm. unfold fold_opt in Hmain.
   destruct (tokens data) as [ts|]; exact Hmain.
 Qed.
+
+(* ---------------------------------------------------------------- repeated fields *)
+Lemma set_nth_set_nth {A} (l : list A) i x y : set_nth (set_nth l i x) i y = set_nth l i y.
+Proof. revert i; induction l as [|a l IH]; intros [|i]; cbn; auto. f_equal. apply IH. Qed.
+Lemma nth_set_nth_in {A} (l : list A) i x d : (i < length l)%nat -> nth i (set_nth l i x) d = x.
+Proof. revert i; induction l as [|a l IH]; intros [|i] H; cbn in *; try lia; auto. apply IH. lia. Qed.
+Lemma set_nth_out {A} (l : list A) i x : (length l <= i)%nat -> set_nth l i x = l.
+Proof. revert i; induction l as [|a l IH]; intros [|i] H; cbn in *; try lia; auto. f_equal. apply IH. lia. Qed.
+
+(* updating a slot through a projection: reading the slot back after a write, or not finding it at all *)
+Lemma set_nth_upd {A} (proj : val -> A) (inj : A -> val) (g : A -> A) fs slot a :
+  (forall x, proj (inj x) = x) ->
+  set_nth (set_nth fs slot (inj a)) slot (inj (g (proj (nth slot (set_nth fs slot (inj a)) (VInt 0))))) = set_nth fs slot (inj (g a)).
+Proof.
+  intros Hpi. destruct (Nat.lt_ge_cases slot (length fs)) as [Hin|Hout].
+  - rewrite nth_set_nth_in by exact Hin. rewrite Hpi. apply set_nth_set_nth.
+  - rewrite (set_nth_out fs slot (inj a)) by exact Hout. rewrite (set_nth_out fs slot (inj (g a))) by exact Hout. apply set_nth_out. exact Hout.
+Qed.
+
+(* packed payloads: the element loop of Repeated<K> and the reference unpacker agree *)
+Lemma parse_value_scalar_pos num wt rest p k : parse_value num wt rest = Some (p, k) -> wt = 0 \/ wt = 1 \/ wt = 5 -> bytes_ok rest -> (1 <= k)%nat.
+Proof.
+  intros E Hw Hb. destruct Hw as [-> | [-> | ->]]; cbn [parse_value] in E.
+  - pose proof (consume_varint_parse rest Hb) as H. destruct (spec_parse_varint rest) as [[v kk]|]; [|discriminate]. inversion E; subst. lia.
+  - destruct (has_len_z rest 8); inversion E; lia.
+  - destruct (has_len_z rest 4); inversion E; lia.
+Qed.
+
+Lemma unpack_step f k b : is_scalar_wire k = true -> b <> [] ->
+  unpack (S f) k b =
+  match parse_value 0 (wire_of k) b with
+  | Some (p, n) =>
+      match tok_scalar k {| t_num := 0; t_wt := wire_of k; t_pay := p; t_raw := firstn n b |} with
+      | Some x => match unpack f k (skipn n b) with Some l => Some (x :: l) | None => None end
+      | None => None
+      end
+  | None => None
+  end.
+Proof.
+  intros Hs Hne. destruct b as [|y l]; [congruence|]. cbn [unpack].
+  assert (Hw : wire_of k = 0 \/ wire_of k = 5 \/ wire_of k = 1) by (destruct k; cbn in *; auto; discriminate).
+  unfold tok_scalar. cbn [t_pay t_wt].
+  destruct Hw as [Hw|[Hw|Hw]]; rewrite Hw; cbn [parse_value].
+  - destruct (spec_parse_varint (y :: l)) as [[v n]|]; reflexivity.
+  - destruct (has_len_z (y :: l) 4); reflexivity.
+  - destruct (has_len_z (y :: l) 8); reflexivity.
+Qed.
+
+Lemma dec_packed_unpack k : is_scalar_wire k = true -> forall fuel b acc, bytes_ok b -> (length b < fuel)%nat ->
+  match unpack fuel k b with
+  | Some xs => dec_packed fuel k b acc = (acc ++ xs, true)
+  | None => snd (dec_packed fuel k b acc) = false
+  end.
+Proof.
+  intros Hs. induction fuel as [|fuel IH]; intros b acc Hb Hl; [lia|].
+  destruct b as [|y l]; [cbn; rewrite app_nil_r; reflexivity|].
+  rewrite unpack_step by (auto; discriminate). cbn [dec_packed].
+  pose proof (dec_payload_parse k 0 (y :: l) Hb) as Hd.
+  destruct (parse_value 0 (wire_of k) (y :: l)) as [[p n]|] eqn:Ep.
+  - destruct Hd as [x [Ht Ed]]. rewrite Ht, Ed. replace (Z.of_nat n <? 0) with false by (symmetry; apply Z.ltb_ge; lia).
+    rewrite Nat2Z.id.
+    assert (Hn : (1 <= n)%nat).
+    { apply (parse_value_scalar_pos 0 (wire_of k) (y :: l) p n Ep); [destruct k; cbn in *; auto; discriminate|exact Hb]. }
+    specialize (IH (skipn n (y :: l)) (acc ++ [x]) (bytes_ok_skipn _ _ Hb) ltac:(rewrite skipn_length; cbn [length] in *; lia)).
+    destruct (unpack fuel k (skipn n (y :: l))) as [xs|].
+    + rewrite IH. rewrite <- app_assoc. reflexivity.
+    + exact IH.
+  - destruct (dec_payload k (y :: l)) as [x xn]. cbn [snd] in Hd. replace (xn <? 0) with true by (symmetry; apply Z.ltb_lt; lia). reflexivity.
+Qed.
+
+Lemma consume_bytes_parse num rest : bytes_ok rest ->
+  match parse_value num 2 rest with
+  | Some (p, kk) => exists b, p = PBytes b /\ consume_bytes rest = (b, Z.of_nat kk) /\ bytes_ok b /\ (length b <= length rest)%nat
+  | None => snd (consume_bytes rest) < 0
+  end.
+Proof.
+  intros Hb. pose proof (dec_payload_parse KBytes num rest Hb) as H. cbn [wire_of BytesType] in H. change BytesType with 2 in H.
+  unfold dec_payload in H. cbn [wire_of] in H. change BytesType with 2 in H. cbn iota in H.
+  destruct (parse_value num 2 rest) as [[p kk]|] eqn:Ep.
+  - destruct H as [x [Ht Ed]]. pose proof (parse_value_wire _ _ _ _ _ Ep) as Hw.
+    destruct p; try lia. exists b. split; [reflexivity|].
+    destruct (consume_bytes rest) as [b' n] eqn:Ec. unfold tok_scalar in Ht. cbn in Ht. injection Ht as <-. injection Ed as -> ->.
+    split; [reflexivity|].
+    cbn [parse_value] in Ep. destruct (spec_parse_varint rest) as [[len k0]|]; [|discriminate].
+    destruct (negb (has_len_z (skipn k0 rest) len)); [discriminate|]. injection Ep as <- <-.
+    split; [apply bytes_ok_firstn, bytes_ok_skipn, Hb|]. rewrite firstn_length, skipn_length. lia.
+  - destruct (consume_bytes rest) as [b' n]. exact H.
+Qed.
+
+Definition rep_elems (k : kind) (tok : token) : option (list val) :=
+  match tok_scalar k tok with
+  | Some x => Some [x]
+  | None => match t_pay tok with
+            | PBytes b => if is_bytes_kind k then None else unpack (S (length b)) k b
+            | _ => None
+            end
+  end.
+
+Lemma hfield_rep_scalar s rrec m slot f k tok t :
+  f_custom f = CNone -> (fty f = TScalar k \/ (fty f = TEnum /\ k = KInt32)) -> i_repeated (field_info s f) = true -> foneof f = None ->
+  hfield s rrec m slot f tok t =
+  match rep_elems k tok with
+  | Some xs => Some (set_nth (fst t) slot (VList (as_list (nth slot (fst t) (VInt 0)) ++ xs)), snd t)
+  | None => None
+  end.
+Proof.
+  intros Hc Ht Hr Ho. unfold hfield, apply_known, rep_elems. rewrite Hc, Hr, (clear_siblings_none m f slot (fst t) Ho).
+  destruct Ht as [Ht|[Ht ->]]; rewrite Ht; cbn [kind_of_ftype]; destruct (tok_scalar _ tok); try reflexivity;
+    destruct (t_pay tok); try reflexivity; try (destruct (is_bytes_kind k); [reflexivity|]); cbn [is_bytes_kind];
+    match goal with |- context[unpack ?a ?b ?c] => destruct (unpack a b c); reflexivity end.
+Qed.
+
+(* one iteration of Repeated<K> on the pending field *)
+Lemma rep_iter k f fuel st vs : err st = None -> bytes_ok (buf st) -> pf st = f ->
+  match parse_value f (pw st) (buf st) with
+  | None => err (fst (dec_repeated (S fuel) k f st vs)) <> None /\ bytes_ok (buf (fst (dec_repeated (S fuel) k f st vs)))
+  | Some (p, kk) =>
+      match rep_elems k (tok_of st p kk) with
+      | None => err (fst (dec_repeated (S fuel) k f st vs)) <> None /\ bytes_ok (buf (fst (dec_repeated (S fuel) k f st vs)))
+      | Some xs => dec_repeated (S fuel) k f st vs = dec_repeated fuel k f (next_field (Z.of_nat kk) st) (vs ++ xs)
+      end
+  end.
+Proof.
+  intros He Hb Hpf. cbn [dec_repeated]. rewrite Hpf, Z.eqb_refl. cbn [negb]. unfold rep_elems, tok_of. rewrite Hpf.
+  destruct (is_scalar_wire k && (pw st =? BytesType)) eqn:Epk.
+  - (* packed *)
+    apply andb_true_iff in Epk. destruct Epk as [Hs Hw]. apply Z.eqb_eq in Hw. change BytesType with 2 in Hw. rewrite Hw.
+    pose proof (consume_bytes_parse f (buf st) Hb) as Hc.
+    destruct (parse_value f 2 (buf st)) as [[p kk]|] eqn:Ep.
+    + destruct Hc as [b [-> [Ec [Hbb Hlb]]]]. rewrite Ec. replace (Z.of_nat kk <? 0) with false by (symmetry; apply Z.ltb_ge; lia).
+      assert (Hts : tok_scalar k {| t_num := f; t_wt := 2; t_pay := PBytes b; t_raw := firstn kk (buf st) |} = None).
+      { unfold tok_scalar. cbn [t_pay t_wt]. destruct k; cbn in *; try reflexivity; discriminate. }
+      rewrite Hts. cbn [t_pay]. unfold is_scalar_wire in Hs. apply negb_true_iff in Hs. rewrite Hs.
+      pose proof (dec_packed_unpack k ltac:(unfold is_scalar_wire; rewrite Hs; reflexivity) (S (length b)) b vs Hbb ltac:(lia)) as Hp.
+      destruct (unpack (S (length b)) k b) as [xs|].
+      * rewrite Hp. reflexivity.
+      * destruct (dec_packed (S (length b)) k b vs) as [vs' ok]. cbn [snd] in Hp. subst ok. cbn. split; [discriminate|exact Hb].
+    + destruct (consume_bytes (buf st)) as [b n]. cbn [snd] in Hc. replace (n <? 0) with true by (symmetry; apply Z.ltb_lt; lia).
+      cbn. split; [discriminate|exact Hb].
+  - destruct (Z.eqb_spec (pw st) (wire_of k)) as [Ew|Ew].
+    + rewrite Ew. pose proof (dec_payload_parse k f (buf st) Hb) as Hd.
+      destruct (parse_value f (wire_of k) (buf st)) as [[p kk]|] eqn:Ep.
+      * destruct Hd as [x [Ht Ed]]. rewrite Ht, Ed. replace (Z.of_nat kk <? 0) with false by (symmetry; apply Z.ltb_ge; lia). reflexivity.
+      * destruct (dec_payload k (buf st)) as [x n]. cbn [snd] in Hd. replace (n <? 0) with true by (symmetry; apply Z.ltb_lt; lia).
+        cbn. split; [discriminate|exact Hb].
+    + destruct (parse_value f (pw st) (buf st)) as [[p kk]|] eqn:Ep; [|cbn; split; [discriminate|exact Hb]].
+      rewrite (tok_scalar_wrong_wire k f (pw st) (buf st) p kk Ep Ew). cbn [t_pay].
+      destruct p; try (cbn; split; [discriminate|exact Hb]).
+      pose proof (parse_value_wire _ _ _ _ _ Ep) as Hw2. cbn in Hw2.
+      destruct (is_bytes_kind k) eqn:Eb; [cbn; split; [discriminate|exact Hb]|].
+      exfalso. unfold is_scalar_wire in Epk. rewrite Eb, Hw2 in Epk. cbn in Epk. discriminate.
+Qed.
+
+Lemma next_field_valid_err a st : pfv (next_field a st) = true -> err (next_field a st) = err st.
+Proof.
+  unfold next_field. destruct ((a <? 0) || negb (has_len_z (buf st) a)); [discriminate|].
+  destruct (skipn (Z.to_nat a) (buf st)) as [|y l]; [discriminate|].
+  destruct (consume_tag (y :: l)) as [[f w] n]. destruct (n <? 0); [discriminate|].
+  destruct (negb (valid_number f)); [discriminate|]. reflexivity.
+Qed.
+
+Section RepScalar.
+Variable h : token -> msgv -> option msgv.
+Variables (k : kind) (f : Z) (slot : nat).
+Hypothesis Hf : valid_number f = true.
+Hypothesis Hh : forall tok t, t_num tok = f -> h tok t =
+  match rep_elems k tok with
+  | Some xs => Some (set_nth (fst t) slot (VList (as_list (nth slot (fst t) (VInt 0)) ++ xs)), snd t)
+  | None => None
+  end.
+
+Definition rep_inv (fs tc vs : list val) : Prop :=
+  forall xs, set_nth tc slot (VList (as_list (nth slot tc (VInt 0)) ++ xs)) = set_nth fs slot (VList (vs ++ xs)).
+
+Lemma rep_inv_next fs vs : rep_inv fs (set_nth fs slot (VList vs)) vs.
+Proof. intros xs. apply (set_nth_upd as_list VList (fun l => l ++ xs) fs slot vs). reflexivity. Qed.
+
+Lemma rep_loop fs un : forall fuel st vs tc, rep_inv fs tc vs -> err st = None -> bytes_ok (buf st) -> pf st = f ->
+  let '(st', l) := dec_repeated (S fuel) k f st vs in step_ok h st (tc, un) st' (set_nth fs slot (VList l), un).
+Proof.
+  induction fuel as [|fuel IH]; intros st vs tc Hinv He Hb Hpf.
+  - pose proof (rep_iter k f 0 st vs He Hb Hpf) as Hi.
+    destruct (dec_repeated 1 k f st vs) as [st' l] eqn:Ed. apply one_token_step; [exact He|exact Hb|]. rewrite Hpf.
+    destruct (parse_value f (pw st) (buf st)) as [[p kk]|]; [|exact Hi].
+    rewrite Hh by (cbn; exact Hpf). destruct (rep_elems k (tok_of st p kk)) as [xs|]; [|exact Hi].
+    cbn [dec_repeated fst snd] in Hi. injection Hi as -> ->. cbn [fst snd]. split; [reflexivity|]. rewrite Hinv. reflexivity.
+  - pose proof (rep_iter k f (S fuel) st vs He Hb Hpf) as Hi.
+    destruct (parse_value f (pw st) (buf st)) as [[p kk]|] eqn:Ep.
+    + destruct (rep_elems k (tok_of st p kk)) as [xs|] eqn:Ee.
+      * rewrite Hi. set (st1 := next_field (Z.of_nat kk) st). set (vs1 := vs ++ xs).
+        assert (S1 : step_ok h st (tc, un) st1 (set_nth fs slot (VList vs1), un)).
+        { apply one_token_step; [exact He|exact Hb|]. rewrite Hpf, Ep. rewrite Hh by (cbn; exact Hpf). rewrite Ee.
+          cbn [fst snd]. split; [reflexivity|]. rewrite Hinv. reflexivity. }
+        destruct (Z.eqb_spec (pf st1) f) as [E1|E1].
+        -- assert (Hv1 : pfv st1 = true) by (unfold pfv; rewrite E1; exact Hf).
+           assert (He1 : err st1 = None) by (unfold st1 in *; rewrite next_field_valid_err by exact Hv1; exact He).
+           destruct S1 as [Hb1 S1'].
+           specialize (IH st1 vs1 (set_nth fs slot (VList vs1)) (rep_inv_next fs vs1) He1 Hb1 E1).
+           destruct (dec_repeated (S fuel) k f st1 vs1) as [st2 l2].
+           apply (step_ok_trans h st (tc, un) st1 (set_nth fs slot (VList vs1), un) st2 (set_nth fs slot (VList l2), un) (conj Hb1 S1')).
+           ++ destruct IH as [Hb2 _]. exact Hb2.
+           ++ intros Hc. congruence.
+           ++ intros _ _. right. exact IH.
+           ++ intros _ Hc. congruence.
+        -- cbn [dec_repeated]. replace (f =? pf st1) with false by (symmetry; apply Z.eqb_neq; congruence). cbn [negb]. exact S1.
+      * destruct (dec_repeated (S (S fuel)) k f st vs) as [st' l]. apply one_token_step; [exact He|exact Hb|]. rewrite Hpf, Ep.
+        rewrite Hh by (cbn; exact Hpf). rewrite Ee. exact Hi.
+    + destruct (dec_repeated (S (S fuel)) k f st vs) as [st' l]. apply one_token_step; [exact He|exact Hb|]. rewrite Hpf, Ep. exact Hi.
+Qed.
+End RepScalar.
+
+Lemma info_repeated s f : flabel f = LRepeated -> (fty f = TEnum \/ exists k, fty f = TScalar k) -> i_repeated (field_info s f) = true.
+Proof. intros Hl Ht. unfold field_info. rewrite Hl. destruct Ht as [Ht|[k Ht]]; rewrite Ht; try destruct (is_bytes_kind k); reflexivity. Qed.
+
+Section Fields2.
+Variables (s : schema) (progs : list prog) (F' : nat).
+Let F := S F'.
+Variable rec : nat -> @body msgv.
+Variable rrec : nat -> bytes -> msgv -> option msgv.
+Variable m : mdesc.
+Variable h : token -> msgv -> option msgv.
+Variable B : nat.
+
+(* repeated scalar and enum fields: packed and unpacked occurrences, in any mixture *)
+Lemma rep_scalar_ok k slot f op :
+  f_custom f = CNone -> (fty f = TScalar k \/ (fty f = TEnum /\ k = KInt32)) -> flabel f = LRepeated -> foneof f = None ->
+  valid_number (fnum f) = true ->
+  gen_field_decode s (oneof_siblings m f slot) slot f = GOk op ->
+  (forall tok t, t_num tok = fnum f -> h tok t = hfield s rrec m slot f tok t) ->
+  reader_ok h B (op_reader progs F rec op).
+Proof.
+  intros Hc Ht Hl Hno Hv Hg Hh.
+  assert (Hrep : i_repeated (field_info s f) = true).
+  { apply info_repeated; [exact Hl|]. destruct Ht as [Ht|[Ht _]]; [right; exists k; exact Ht|left; exact Ht]. }
+  assert (Hone : i_oneof (field_info s f) = false) by (rewrite info_oneof, Hno; reflexivity).
+  assert (Hhs : forall tok t, t_num tok = fnum f -> h tok t =
+            match rep_elems k tok with
+            | Some xs => Some (set_nth (fst t) slot (VList (as_list (nth slot (fst t) (VInt 0)) ++ xs)), snd t)
+            | None => None end).
+  { intros tok t E. rewrite (Hh tok t E). apply hfield_rep_scalar; assumption. }
+  assert (Hop : op = DScalar k true false slot (fnum f) \/ (k = KInt32 /\ op = DRepEnum slot (fnum f))).
+  { unfold gen_field_decode in Hg. rewrite Hrep, Hone in Hg. destruct Ht as [Ht|[Ht ->]].
+    - rewrite (info_scalar s f k Hc Ht) in Hg. destruct (i_pointer (field_info s f)); cbn in Hg; [discriminate Hg|]. injection Hg as <-. left; reflexivity.
+    - rewrite (info_enum s f Hc Ht) in Hg. destruct (i_pointer (field_info s f)); [discriminate Hg|]. injection Hg as <-. right; auto. }
+  intros st t HB He Hb _ Hm. cbn [op_reader rmatch rrun] in *.
+  assert (G : pf st = fnum f -> let '(st1, t1) := (let '(st', l) := dec_repeated F k (fnum f) st (as_list (slot_get (fst t) slot)) in (st', set_slot t slot (VList l))) in
+              step_ok h st t st1 t1).
+  { intros Hpf. pose proof (rep_loop h k (fnum f) slot Hv Hhs (fst t) (snd t) F' st (as_list (slot_get (fst t) slot)) (fst t)
+                   ltac:(intros xs; reflexivity) He Hb Hpf) as Hl'.
+    fold F in Hl'. destruct (dec_repeated F k (fnum f) st (as_list (slot_get (fst t) slot))) as [st' l].
+    destruct t as [fs un]. exact Hl'. }
+  destruct Hop as [->|[-> ->]]; cbn [op_match] in Hm; unfold dec_op; cbn [op_match]; rewrite Hm; cbn [dec_op_run]; apply Z.eqb_eq in Hm.
+  - apply G, Hm.
+  - unfold dec_repeated_enum. apply G, Hm.
+Qed.
+End Fields2.
+
+(* ---------------------------------------------------------------- T_dec by induction on the nesting fuel *)
+Definition scalar_like (f : fdesc) : Prop := exists k, fty f = TScalar k \/ (fty f = TEnum /\ k = KInt32).
+
+(* the fields whose statements have a proved token contract *)
+Definition supported (f : fdesc) : Prop :=
+  f_custom f = CNone /\ scalar_like f /\ (flabel f <> LRepeated \/ foneof f = None).
+
+Definition supported_schema (s : schema) : Prop := forall m, In m s -> forall f, In f (mfields m) -> supported f.
+
+Section TDecInd.
+Variables (s : schema) (progs : list prog) (F' : nat) (B : nat).
+Let F := S F'.
+Hypothesis Hgen : gen_all s = GOk progs.
+Hypothesis Hwf : wf_schema_dec s.
+Hypothesis Hsup : supported_schema s.
+Hypothesis HB : (B + 3 <= F)%nat.
+
+Definition msg_rel (fuel : nat) (idx : nat) : Prop := forall b st0 t, bytes_ok b -> (length b <= B)%nat -> err st0 = None ->
+  let '(st', t') := Dec.loop F (dec_msg fuel progs F idx) (push_state b st0) t in
+  match ref_decode fuel s idx b t with
+  | Some t'' => err st' = None /\ t' = t''
+  | None => err st' <> None
+  end.
+
+Lemma field_contract fuel m : In m s -> (forall idx, msg_rel fuel idx) ->
+  forall slot f op, In (slot, f) (number_from 0 (mfields m)) ->
+  gen_field_decode s (oneof_siblings m f slot) slot f = GOk op ->
+  (forall tok t, t_num tok = fnum f -> apply_token s (ref_decode fuel s) m tok t = hfield s (ref_decode fuel s) m slot f tok t) ->
+  reader_ok (apply_token s (ref_decode fuel s) m) B (op_reader progs F (dec_msg fuel progs F) op).
+Proof.
+  intros Hm IH slot f op Hin Hg Hh. pose proof (number_from_In _ _ _ Hin) as Hf.
+  destruct (Hsup m Hm f Hf) as [Hc [[k Hk] Hlab]].
+  destruct (Hwf m Hm) as [_ Hv]. destruct (Hv f Hf) as [Hvn _].
+  destruct (flabel f) eqn:El.
+  - apply (scalar_like_ok s progs F' _ (ref_decode fuel s) m _ B k slot f op Hc Hk ltac:(rewrite El; discriminate) Hg Hh).
+  - apply (scalar_like_ok s progs F' _ (ref_decode fuel s) m _ B k slot f op Hc Hk ltac:(rewrite El; discriminate) Hg Hh).
+  - destruct Hlab as [Hl|Hno]; [congruence|].
+    apply (rep_scalar_ok s progs F' _ (ref_decode fuel s) m _ B k slot f op Hc Hk El Hno Hvn Hg Hh).
+Qed.
+
+Theorem T_dec_msg : forall fuel idx, msg_rel fuel idx.
+Proof.
+  induction fuel as [|fuel IH]; intros idx b st0 t Hb Hl He0.
+  - (* no nesting budget: both sides fail *)
+    unfold F. cbn [Dec.loop dec_msg ref_decode]. cbn. discriminate.
+  - cbn [dec_msg ref_decode].
+    destruct (nth_error progs idx) as [p|] eqn:Ep.
+    + destruct (gen_all_nth s progs idx p Hgen Ep) as [m [Hm [Hg _]]]. rewrite Hm.
+      destruct (Hwf m (nth_error_In _ _ Hm)) as [Hnd Hf].
+      pose proof (gen_msg_decode_ok s progs F' (dec_msg fuel progs F) (ref_decode fuel s) m (p_dec p) B Hg Hnd
+                    (fun f H => proj1 (Hf f H)) (fun f H => proj2 (Hf f H)) (dec_msg_sticky s progs F' Hgen Hwf fuel) HB
+                    (field_contract fuel m (nth_error_In _ _ Hm) IH) b st0 t Hb Hl He0) as Hmain.
+      fold F in Hmain. destruct (Dec.loop F (dec_body progs F (dec_msg fuel progs F) (p_dec p)) (push_state b st0) t) as [st' t'].
+      unfold fold_opt in Hmain. destruct (tokens b) as [ts|]; exact Hmain.
+    + assert (Hs : nth_error s idx = None).
+      { destruct (nth_error s idx) as [m|] eqn:Em; [|reflexivity]. destruct (gen_all_nth_s s progs idx m Hgen Em) as [p Hp]. congruence. }
+      rewrite Hs. unfold F. cbn [Dec.loop]. cbn. discriminate.
+Qed.
+End TDecInd.
+
+(* T_dec: picobuf.Unmarshal with generated code = the reference decoder, on every input *)
+Theorem T_dec s progs idx data t0 :
+  gen_all s = GOk progs -> wf_schema_dec s -> supported_schema s -> bytes_ok data ->
+  let r := pico_unmarshal progs idx data t0 in
+  match ref_decode (S (S (S (length data)))) s idx data t0 with
+  | Some t'' => fst r = None /\ snd r = t''
+  | None => fst r <> None
+  end.
+Proof.
+  intros Hgen Hwf Hsup Hb. cbv zeta. unfold pico_unmarshal.
+  pose proof (T_dec_msg s progs (S (S (length data))) (length data) Hgen Hwf Hsup ltac:(lia) (S (S (S (length data)))) idx data
+                {| pf := 0; pw := 0; buf := []; err := None |} t0 Hb (le_n _) eq_refl) as H.
+  unfold push_state in H. cbn [err] in H.
+  destruct (Dec.loop (S (S (S (length data)))) (dec_msg (S (S (S (length data)))) progs (S (S (S (length data)))) idx)
+              (next_field 0 {| pf := 0; pw := 0; buf := data; err := None |}) t0) as [st' t'].
+  exact H.
+Qed.
